@@ -5,6 +5,7 @@ mod codec;
 mod consdrive;
 mod doscdrive;
 mod drive;
+mod envdrive;
 mod feedrive;
 mod js;
 mod keys;
@@ -78,6 +79,21 @@ fn cmd_vm(a: &Args) {
     let fam = a.s("fam", "mix");
     let mut out = Out::new(&a.s("out", "vm.ndjson"));
     let mut r = vm::gen_random_seeded(seed);
+    if fam == "file" {
+        // spec -> impl replay: programs enumerated by TLC (Gen_VM), one JSON object per line with the expected result
+        use std::io::BufRead;
+        let f = std::io::BufReader::new(std::fs::File::open(a.s("in", "progs.ndjson")).unwrap());
+        for line in f.lines() {
+            let v: serde_json::Value = serde_json::from_str(&line.unwrap()).unwrap();
+            let ops: Vec<melvm::opcode::OpCode> = v["ops"].as_array().unwrap().iter().map(|o| js::opcode_from_json(o).expect("unknown instruction in generated program")).collect();
+            let mut rec = vm::run_record("tlc-generated", &ops, Default::default(), 200_000);
+            rec["expect"] = v["expect"].clone();
+            out.put(rec);
+        }
+        let n = out.finish();
+        println!("{}", json!({"records": n}));
+        return;
+    }
     if fam == "optable" {
         vm::optable(&mut out);
         let n = out.finish();
@@ -178,6 +194,13 @@ fn cmd_universe(a: &Args) {
     println!("{}", json!({"records": n}));
 }
 
+fn cmd_env(a: &Args) {
+    let mut out = Out::new(&a.s("out", "env.ndjson"));
+    envdrive::env(&mut out, a.u64("seed", 1), a.u64("n", 300));
+    let n = out.finish();
+    println!("{}", json!({"records": n}));
+}
+
 fn cmd_swap(a: &Args) {
     let mut out = Out::new(&a.s("out", "swap.ndjson"));
     let net = drive::net_of(&a.s("net", "custom02"));
@@ -213,6 +236,7 @@ fn main() {
         Some("codec") => cmd_codec(&a),
         Some("ledger") => cmd_ledger(&a),
         Some("swap") => cmd_swap(&a),
+        Some("env") => cmd_env(&a),
         Some("universe") => cmd_universe(&a),
         Some("boundary") => cmd_boundary(&a),
         Some("dosc") => cmd_dosc(&a),
